@@ -947,6 +947,73 @@ theorem Stale.keep {s s' : St} (hst : s'.store = s.store) (hse : StaticEq s s')
 def Justified (x : Comp) (s' : St) (y : Comp) : Prop :=
   y.evals = x.evals ∨ (y.evals = x.evals + 1 ∧ x.dirty = true ∧ (x.first = true ∨ ∃ e ∈ x.parents, Stale s' e))
 
+/-- what a read did to a Computed other than the one on top of the evaluation stack: its function did not run and —
+    unless it was re-validated (no longer dirty) — nothing at all happened to it; or its function ran, and then it was
+    dirty and either never ran / raised the last time it ran, or something it remembered differs from the present value -/
+def JustAll (x : Comp) (s' : St) (y : Comp) : Prop :=
+  (y.evals = x.evals ∧ (y.dirty = true → y = x)) ∨
+  (x.evals < y.evals ∧ x.dirty = true ∧ (x.first = true ∨ ∃ e ∈ x.parents, Stale s' e))
+
+theorem JustAll.refl (x : Comp) (s : St) : JustAll x s x := Or.inl ⟨rfl, fun _ => rfl⟩
+
+theorem JustAll.trans {x y z : Comp} {s1 s2 : St} (hst : s2.store = s1.store) (hse : StaticEq s1 s2)
+    (hk : ∀ q x, s1.comps q = some x → x.dirty = false → s2.comps q = some x)
+    (h1 : JustAll x s1 y) (h2 : JustAll y s2 z) : JustAll x s2 z := by
+  rcases h1 with ⟨e1, d1⟩ | ⟨l1, xd, r1⟩
+  · rcases h2 with ⟨e2, d2⟩ | ⟨l2, yd, r2⟩
+    · exact Or.inl ⟨e2.trans e1, fun hz => by have h := d2 hz; subst h; exact d1 hz⟩
+    · have h := d1 yd; subst h; exact Or.inr ⟨l2, yd, r2⟩
+  · have hle : y.evals ≤ z.evals := by
+      rcases h2 with ⟨e2, _⟩ | ⟨l2, _, _⟩ <;> omega
+    refine Or.inr ⟨by omega, xd, ?_⟩
+    rcases r1 with r1 | ⟨e, he, hs⟩
+    · exact Or.inl r1
+    · exact Or.inr ⟨e, he, Stale.keep hst hse hk hs⟩
+
+/-- `JustAll` for every Computed with an index in `P` -/
+def Below (P : Nat → Prop) (s s' : St) : Prop :=
+  ∀ q x, P q → s.comps q = some x → ∃ y, s'.comps q = some y ∧ JustAll x s' y
+
+theorem Below.refl (P : Nat → Prop) (s : St) : Below P s s := fun _ x _ hx => ⟨x, hx, JustAll.refl x s⟩
+
+theorem Below.of_eq {P : Nat → Prop} {s s' : St} (h : ∀ q, P q → s'.comps q = s.comps q) : Below P s s' :=
+  fun q x hq hx => ⟨x, by rw [h q hq]; exact hx, JustAll.refl x s'⟩
+
+theorem Below.trans {P : Nat → Prop} {s s1 s2 : St} (hst : s2.store = s1.store) (hse : StaticEq s1 s2)
+    (hk : ∀ q x, s1.comps q = some x → x.dirty = false → s2.comps q = some x)
+    (b1 : Below P s s1) (b2 : Below P s1 s2) : Below P s s2 := by
+  intro q x hq hx
+  obtain ⟨y, hy, j1⟩ := b1 q x hq hx
+  obtain ⟨z, hz, j2⟩ := b2 q y hq hy
+  exact ⟨z, hz, j1.trans hst hse hk j2⟩
+
+/-- from the Computeds up to `c'` to all below `c`, when those in between were not touched -/
+theorem Below.widen {c' c : Nat} {s s' : St} (b : Below (· ≤ c') s s')
+    (hab : ∀ q, c' < q → q < c → s'.comps q = s.comps q) : Below (· < c) s s' := by
+  intro q x hq hx
+  by_cases h : q ≤ c'
+  · exact b q x h hx
+  · exact ⟨x, by rw [hab q (by omega) hq]; exact hx, JustAll.refl x s'⟩
+
+/-- steps before that leave the Computeds in `P` alone -/
+theorem Below.eq_step {P : Nat → Prop} {s s1 s2 : St} (hc : ∀ q, P q → s1.comps q = s.comps q)
+    (b : Below P s1 s2) : Below P s s2 :=
+  fun q x hq hx => b q x hq (by rw [hc q hq]; exact hx)
+
+/-- … and steps after -/
+theorem Below.step_eq {P : Nat → Prop} {s s1 s2 : St} (b : Below P s s1) (hst : s2.store = s1.store)
+    (hse : StaticEq s1 s2) (hk : ∀ q x, s1.comps q = some x → x.dirty = false → s2.comps q = some x)
+    (hc : ∀ q, P q → s2.comps q = s1.comps q) : Below P s s2 :=
+  Below.trans hst hse hk b (Below.of_eq hc)
+
+theorem Below.snoc {c : Nat} {s s' : St} (b : Below (· < c) s s')
+    (hc : ∀ x, s.comps c = some x → ∃ y, s'.comps c = some y ∧ JustAll x s' y) : Below (· ≤ c) s s' := by
+  intro q x hq hx
+  by_cases h : q < c
+  · exact b q x h hx
+  · have : q = c := by omega
+    subst this; exact hc x hx
+
 /-! ### reading a Computable: the induction -/
 
 /-- what `Computable.__get__` of `c` guarantees when it returns `v` -/
@@ -960,6 +1027,7 @@ structure PostGet (S : Nat → Prop) (c : Nat) (s s' : St) (v : V) : Prop where
     ∀ x, s.comps c = some x → Justified x s' y
   keepClean : ∀ q x, s.comps q = some x → x.dirty = false → s'.comps q = some x
   above : ∀ q, c < q → s.cur ≠ some q → s'.comps q = s.comps q
+  below : Below (· ≤ c) s s'
   curPar : ∀ p x, s.cur = some p → s.comps p = some x →
     ∃ own, s'.comps p = some { x with parents := insertParent own (.comp c) v x.parents }
 
@@ -976,6 +1044,7 @@ structure PostErr (S : Nat → Prop) (c : Nat) (s s' : St) : Prop where
     ∀ x, s.comps c = some x → Justified x s' y
   keepClean : ∀ q x, s.comps q = some x → x.dirty = false → s'.comps q = some x
   above : ∀ q, c < q → s'.comps q = s.comps q
+  below : Below (· ≤ c) s s'
 
 /-- the induction hypothesis about the recursive calls -/
 structure IH (rec : Rec) : Prop where
@@ -1008,7 +1077,7 @@ theorem evalTree_spec {rec : Rec} (ih : IH rec) (c : Nat) (S : Nat → Prop) (hS
     ∃ ps x', Inv (fun q => S q ∨ q = c) NoP s' ∧ StaticEq s s' ∧
       s'.store = s.store ∧ s'.cur = s.cur ∧ s'.dead = s.dead ∧
       (∀ q y, s.comps q = some y → y.dirty = false → s'.comps q = some y) ∧
-      (∀ q, c < q → s'.comps q = s.comps q) ∧
+      (∀ q, c < q → s'.comps q = s.comps q) ∧ Below (· < c) s s' ∧
       s'.comps c = some x' ∧ x' = { x with parents := x'.parents } ∧
       (∀ e, e ∈ ps0 ++ ps ↔ e ∈ x'.parents) ∧
       (∀ v, r = .ok v → PathR t ps v ∧ ∀ e ∈ ps0 ++ ps, Current NoP s' e.1 e.2) ∧
@@ -1019,7 +1088,7 @@ theorem evalTree_spec {rec : Rec} (ih : IH rec) (c : Nat) (S : Nat → Prop) (hS
     intro s s' r x ps0 _ _ _ inv hcur hx hps hcurr h
     simp only [evalTree] at h
     injection h with h; injection h with h1 h2; subst h1 h2
-    refine ⟨[], x, inv, StaticEq.refl s, rfl, rfl, rfl, fun _ _ h _ => h, fun _ _ => rfl, hx, rfl,
+    refine ⟨[], x, inv, StaticEq.refl s, rfl, rfl, rfl, fun _ _ h _ => h, fun _ _ => rfl, Below.refl _ s, hx, rfl,
       by simpa using hps, fun v hv => ?_, fun e he => by cases he⟩
     injection hv with hv; subst hv
     exact ⟨.ret _, by simpa using hcurr⟩
@@ -1027,7 +1096,7 @@ theorem evalTree_spec {rec : Rec} (ih : IH rec) (c : Nat) (S : Nat → Prop) (hS
     intro s s' r x ps0 _ _ _ inv hcur hx hps hcurr h
     simp only [evalTree] at h
     injection h with h; injection h with h1 h2; subst h1 h2
-    refine ⟨[], x, inv, StaticEq.refl s, rfl, rfl, rfl, fun _ _ h _ => h, fun _ _ => rfl, hx, rfl,
+    refine ⟨[], x, inv, StaticEq.refl s, rfl, rfl, rfl, fun _ _ h _ => h, fun _ _ => rfl, Below.refl _ s, hx, rfl,
       by simpa using hps, fun v hv => (by cases hv), fun e he => ?_⟩
     exact ⟨.nil _, .fail⟩
   | read k cont _ ihc =>
@@ -1060,7 +1129,7 @@ theorem evalTree_spec {rec : Rec} (ih : IH rec) (c : Nat) (S : Nat → Prop) (hS
         intro q y hy hd
         have : q ≠ c := by intro e; subst e; rw [hx] at hy; cases hy; simp [hxd] at hd
         rw [hoth1 q this]; exact hy
-      obtain ⟨ps, x', inv', se', hst', hcur', hdead', hk', hab', hc', hx', hmem', hokp, herrp⟩ :=
+      obtain ⟨ps, x', inv', se', hst', hcur', hdead', hk', hab', hbl', hc', hx', hmem', hokp, herrp⟩ :=
         ihc (s.store k) { s1 with proc := k :: s1.proc } s' r
         { x with parents := insertParent s.ownerOf (.obs k) (s.store k) x.parents }
         (ps0 ++ [(.obs k, s.store k)]) (hr _)
@@ -1078,11 +1147,13 @@ theorem evalTree_spec {rec : Rec} (ih : IH rec) (c : Nat) (S : Nat → Prop) (hS
         h
       have hst'' : s'.store = s.store := hst'.trans hst1
       refine ⟨(.obs k, s.store k) :: ps, x', inv', se1'.trans se', hst'', hcur'.trans hcur1, hdead'.trans hdead1,
-        ?_, ?_, hc', ?_, ?_, fun v hv => ?_, fun e he => ?_⟩
+        ?_, ?_, ?_, hc', ?_, ?_, fun v hv => ?_, fun e he => ?_⟩
       · intro q y hy hd; exact hk' q y (hkeep1 q y hy hd) hd
       · intro q hq
         rw [hab' q hq]
         exact hoth1 q (by omega)
+      · exact Below.trans hst' se' hk'
+          (Below.of_eq (s' := { s1 with proc := k :: s1.proc }) fun q (hq : q < c) => hoth1 q (by omega)) hbl'
       · rw [hx']
       · intro e; rw [← hmem' e]; simp [List.append_assoc]
       · obtain ⟨hp, hcurr'⟩ := hokp v hv
@@ -1115,6 +1186,7 @@ theorem evalTree_spec {rec : Rec} (ih : IH rec) (c : Nat) (S : Nat → Prop) (hS
         injection h with h; injection h with h1 h2; subst h1 h2
         have pe := hperr e rfl
         refine ⟨[], x, pe.inv, pe.stat, pe.store, pe.cur, pe.dead, pe.keepClean, fun q hq => pe.above q (by omega),
+          pe.below.widen (fun q hq _ => pe.above q hq),
           by rw [pe.above c hlt]; exact hx, rfl, by simpa using hps, fun v hv => (by cases hv), fun e' he' => ?_⟩
         refine ⟨.nil _, ?_⟩
         rcases pe.failed with hnone | ⟨y, hy, _, _, hdf, _⟩
@@ -1135,7 +1207,7 @@ theorem evalTree_spec {rec : Rec} (ih : IH rec) (c : Nat) (S : Nat → Prop) (hS
             rw [hy1] at this; cases this
             rw [hyv] at hyv1; cases hyv1; rfl
           · exact absurd hyd (by simp [NoP])
-        obtain ⟨ps, x', inv', se', hst', hcur', hdead', hk', hab', hc', hx', hmem', hokp, herrp⟩ :=
+        obtain ⟨ps, x', inv', se', hst', hcur', hdead', hk', hab', hbl', hc', hx', hmem', hokp, herrp⟩ :=
           ihc v1 s1 s' r { x with parents := insertParent own (.comp c') v1 x.parents }
           (ps0 ++ [(.comp c', v1)]) (hr _)
           ((ho _).mono fun k' hk' => by rw [pg.stat.kindAt]; exact hk') (w.of_staticEq pg.stat) pg.inv
@@ -1150,11 +1222,13 @@ theorem evalTree_spec {rec : Rec} (ih : IH rec) (c : Nat) (S : Nat → Prop) (hS
               exact ⟨y1, hy1, hyv1, Or.inl hyd1⟩)
           h
         refine ⟨(.comp c', v1) :: ps, x', inv', pg.stat.trans se', hst'.trans pg.store,
-          hcur'.trans pg.cur, hdead'.trans pg.dead, ?_, ?_, hc', ?_, ?_, fun v hv => ?_, fun e he => ?_⟩
+          hcur'.trans pg.cur, hdead'.trans pg.dead, ?_, ?_, ?_, hc', ?_, ?_, fun v hv => ?_, fun e he => ?_⟩
         · intro q y hy hd; exact hk' q y (pg.keepClean q y hy hd) hd
         · intro q hq
           rw [hab' q hq]
           exact pg.above q (by omega) (by rw [hcur]; intro e; injection e with e; omega)
+        · exact Below.trans hst' se' hk'
+            (pg.below.widen fun q hq hqc => pg.above q hq (by rw [hcur]; intro e; injection e with e; omega)) hbl'
         · rw [hx']
         · intro e; rw [← hmem' e]; simp [List.append_assoc]
         · obtain ⟨hp, hcurr'⟩ := hokp v hv
@@ -1173,7 +1247,7 @@ theorem precheck_spec {rec : Rec} (ih : IH rec) (c : Nat) (S : Nat → Prop) (hS
     precheck rec ps s = some (s', r) →
     ∃ b, r = .ok b ∧ Inv S NoP s' ∧ StaticEq s s' ∧ s'.store = s.store ∧ s'.cur = none ∧ s'.dead = s.dead ∧
       (∀ q y, s.comps q = some y → y.dirty = false → s'.comps q = some y) ∧
-      (∀ q, c ≤ q → s'.comps q = s.comps q) ∧
+      (∀ q, c ≤ q → s'.comps q = s.comps q) ∧ Below (· < c) s s' ∧
       (b = false → ∀ e ∈ ps, Current NoP s' e.1 e.2) ∧
       (b = true → ∃ e ∈ ps, Stale s' e) := by
   intro ps
@@ -1182,7 +1256,7 @@ theorem precheck_spec {rec : Rec} (ih : IH rec) (c : Nat) (S : Nat → Prop) (hS
     intro s s' r _ _ inv hcur h
     simp only [precheck] at h
     injection h with h; injection h with h1 h2; subst h1 h2
-    exact ⟨false, rfl, inv, StaticEq.refl s, rfl, hcur, rfl, fun _ _ h _ => h, fun _ _ => rfl,
+    exact ⟨false, rfl, inv, StaticEq.refl s, rfl, hcur, rfl, fun _ _ h _ => h, fun _ _ => rfl, Below.refl _ s,
       fun _ e he => (by simp at he), fun h => (by cases h)⟩
   | cons e ps ihp =>
     intro s s' r hpar w inv hcur h
@@ -1193,11 +1267,11 @@ theorem precheck_spec {rec : Rec} (ih : IH rec) (c : Nat) (S : Nat → Prop) (hS
       by_cases hne : s.store k ≠ v
       · rw [if_pos hne] at h
         injection h with h; injection h with h1 h2; subst h1 h2
-        exact ⟨true, rfl, inv, StaticEq.refl s, rfl, hcur, rfl, fun _ _ h _ => h, fun _ _ => rfl, fun h => (by cases h),
-          fun _ => ⟨(.obs k, v), by simp, hne⟩⟩
+        exact ⟨true, rfl, inv, StaticEq.refl s, rfl, hcur, rfl, fun _ _ h _ => h, fun _ _ => rfl, Below.refl _ s,
+          fun h => (by cases h), fun _ => ⟨(.obs k, v), by simp, hne⟩⟩
       · rw [if_neg hne] at h
-        obtain ⟨b, hb, i1, i2, i3, i4, i5, i6, i7, i8, i9⟩ := ihp s s' r (fun e he => hpar e (by simp [he])) w inv hcur h
-        refine ⟨b, hb, i1, i2, i3, i4, i5, i6, i7, fun hb' e he => ?_, fun hb' => ?_⟩
+        obtain ⟨b, hb, i1, i2, i3, i4, i5, i6, i7, ib, i8, i9⟩ := ihp s s' r (fun e he => hpar e (by simp [he])) w inv hcur h
+        refine ⟨b, hb, i1, i2, i3, i4, i5, i6, i7, ib, fun hb' e he => ?_, fun hb' => ?_⟩
         · rcases List.mem_cons.mp he with rfl | he
           · show s'.store k = v
             rw [i3]; exact Decidable.not_not.mp hne
@@ -1231,7 +1305,7 @@ theorem precheck_spec {rec : Rec} (ih : IH rec) (c : Nat) (S : Nat → Prop) (hS
           rcases pe.failed with hnone | ⟨y, hy, _, _, hdf, _⟩
           · rw [hy4] at hnone; cases hnone
           exact ⟨true, rfl, pe.inv, pe.stat, pe.store, pe.cur.trans hcur, pe.dead, pe.keepClean,
-            fun q hq => pe.above q (by omega), fun h => (by cases h),
+            fun q hq => pe.above q (by omega), pe.below.widen (fun q hq _ => pe.above q hq), fun h => (by cases h),
             fun _ => ⟨(.comp c4, v), by simp, y, hy, Or.inr hdf⟩⟩
         | ok v' =>
           simp only at h
@@ -1242,17 +1316,19 @@ theorem precheck_spec {rec : Rec} (ih : IH rec) (c : Nat) (S : Nat → Prop) (hS
           · rw [if_pos hne] at h
             injection h with h; injection h with h1 h2; subst h1 h2
             obtain ⟨y, hy, hyd, hyv, _⟩ := pg.clean
-            refine ⟨true, rfl, pg.inv, pg.stat, pg.store, pg.cur.trans hcur, pg.dead, pg.keepClean, hab, fun h => (by cases h),
+            refine ⟨true, rfl, pg.inv, pg.stat, pg.store, pg.cur.trans hcur, pg.dead, pg.keepClean, hab,
+              pg.below.widen (fun q hq _ => pg.above q hq (by rw [hcur]; simp)), fun h => (by cases h),
               fun _ => ⟨(.comp c4, v), by simp, y, hy, Or.inl ⟨hyd, ?_⟩⟩⟩
             rw [hyv]; intro e; injection e with e; exact hne e
           · rw [if_neg hne] at h
             have hveq : v' = v := Decidable.not_not.mp hne
-            obtain ⟨b, hb, i1, i2, i3, i4, i5, i6, i7, i8, i9⟩ :=
+            obtain ⟨b, hb, i1, i2, i3, i4, i5, i6, i7, ib, i8, i9⟩ :=
               ihp s1 s' r (fun e he => by
                 obtain ⟨h1, k, hk⟩ := hpar e (by simp [he])
                 exact ⟨h1, k, by rw [pg.stat.keyOf]; exact hk⟩) (w.of_staticEq pg.stat) pg.inv (pg.cur.trans hcur) h
             refine ⟨b, hb, i1, pg.stat.trans i2, i3.trans pg.store, i4, i5.trans pg.dead,
               fun q y hy hd => i6 q y (pg.keepClean q y hy hd) hd, fun q hq => (i7 q hq).trans (hab q hq),
+              Below.trans i3 i2 i6 (pg.below.widen (fun q hq _ => pg.above q hq (by rw [hcur]; simp))) ib,
               fun hb' e he => ?_, fun hb' => ?_⟩
             · rcases List.mem_cons.mp he with rfl | he
               · obtain ⟨y, hy, hyd, hyv, _⟩ := pg.clean
@@ -1430,7 +1506,7 @@ theorem evalBody_spec {rec : Rec} (ih : IH rec) (c : Nat) (S : Nat → Prop) (hS
     (hsaved : ∀ p, saved = some p → S p) (h : evalBody rec c x.tree saved s1 = some (s', r)) :
     Inv S NoP s' ∧ StaticEq s1 s' ∧ s'.store = s1.store ∧ s'.cur = saved ∧ s'.dead = s1.dead ∧
     (∀ q y, s1.comps q = some y → y.dirty = false → s'.comps q = some y) ∧
-    (∀ q, c < q → s'.comps q = s1.comps q) ∧
+    (∀ q, c < q → s'.comps q = s1.comps q) ∧ Below (· < c) s1 s' ∧
     (∀ v, r = .ok v → ∃ y, s'.comps c = some y ∧ y.dirty = false ∧ y.value = some v ∧ y.evals = x.evals + 1) ∧
     (∀ e, r = .err e →
       ∃ y, s'.comps c = some y ∧ y.first = true ∧ y.dirty = true ∧ DenFail s' y.tree ∧ y.evals = x.evals + 1) := by
@@ -1468,7 +1544,7 @@ theorem evalBody_spec {rec : Rec} (ih : IH rec) (c : Nat) (S : Nat → Prop) (hS
   | none => simp [he] at h
   | some res =>
     obtain ⟨s4, r4⟩ := res
-    obtain ⟨ps, x4, inv4, se4, hst4, hcur4, hdead4, hk4, hab4, hc4, hx4, hmem4, hokp, herrp⟩ :=
+    obtain ⟨ps, x4, inv4, se4, hst4, hcur4, hdead4, hk4, hab4, hbl4, hc4, hx4, hmem4, hokp, herrp⟩ :=
       evalTree_spec ih c S hSc hSlt x.tree (w.pure c x hx) s3 s4 r4
       { x with parents := [], evals := x.evals + 1 } [] (w.ranked c x hx)
       ((w.obsKind c x hx).mono fun k hk => by rw [se3.kindAt]; exact hk) w3 inv3 hcur3 hx3 (fun e => by simp)
@@ -1487,6 +1563,18 @@ theorem evalBody_spec {rec : Rec} (ih : IH rec) (c : Nat) (S : Nat → Prop) (hS
       intro q hq z
       have hq' : q ≠ c := by omega
       rw [setComp_ne _ _ hq', hab4 q hq, hoth3 q hq']
+    have hbelow : ∀ z, StaticEq s4 (leave saved (s4.setComp c z)) →
+        Below (· < c) s1 (leave saved (s4.setComp c z)) := by
+      intro z sez
+      have b14 : Below (· < c) s1 s4 :=
+        Below.trans hst4 se4 hk4 (Below.of_eq fun q (hq : q < c) => hoth3 q (by omega)) hbl4
+      refine Below.trans (s1 := s4) rfl sez ?_ b14 (Below.of_eq fun q (hq : q < c) => ?_)
+      · intro q y hy hd
+        have hq : q ≠ c := by intro e; subst e; rw [hc4] at hy; cases hy; simp [hx4d] at hd
+        show (s4.setComp c z).comps q = some y
+        rw [setComp_ne _ _ hq]; exact hy
+      · show (s4.setComp c z).comps q = s4.comps q
+        rw [setComp_ne _ _ (by omega)]
     cases r4 with
     | err e =>
       simp only at h
@@ -1498,7 +1586,8 @@ theorem evalBody_spec {rec : Rec} (ih : IH rec) (c : Nat) (S : Nat → Prop) (hS
         have := StaticEq.of_setComp (s := s4) (x' := { x4 with first := true }) hc4 rfl rfl rfl
         exact ⟨this.progs, this.decls, this.comps⟩
       refine ⟨?_, (se3.trans se4).trans sef, hst4.trans hst3, rfl, hdead4.trans hdead3,
-        fun q y hy hd => hkeep q y hy hd _, fun q hq => habove q hq _, fun v hv => (by cases hv), fun e' he' => ?_⟩
+        fun q y hy hd => hkeep q y hy hd _, fun q hq => habove q hq _, hbelow _ sef, fun v hv => (by cases hv),
+        fun e' he' => ?_⟩
       · exact (Inv.fail (saved := saved) inv4 hSc hc4 (by rw [hx4t]; exact hpre) (fun e => by simpa using hmem4 e)
           hsaved).congr rfl rfl rfl (fun p hp => hsaved p hp)
       · refine ⟨_, setComp_same _ _ _, rfl, hx4d, ?_, hx4e⟩
@@ -1509,8 +1598,12 @@ theorem evalBody_spec {rec : Rec} (ih : IH rec) (c : Nat) (S : Nat → Prop) (hS
       obtain ⟨hp, hcurr4⟩ := hokp v rfl
       simp only [hc4] at h
       injection h with h; injection h with h1 h2; subst h1 h2
+      have sek : StaticEq s4 (leave saved (s4.setComp c { x4 with value := some v, dirty := false })) := by
+        have := StaticEq.of_setComp (s := s4) (x' := { x4 with value := some v, dirty := false }) hc4 rfl rfl rfl
+        exact ⟨this.progs, this.decls, this.comps⟩
       refine ⟨?_, ?_, hst4.trans hst3, rfl, hdead4.trans hdead3,
-        fun q y hy hd => hkeep q y hy hd _, fun q hq => habove q hq _, fun v' hv' => ?_, fun e he => by cases he⟩
+        fun q y hy hd => hkeep q y hy hd _, fun q hq => habove q hq _, hbelow _ sek, fun v' hv' => ?_,
+        fun e he => by cases he⟩
       · exact (Inv.finish (saved := saved) inv4 hSc hc4 hx4f (by rw [hx4t]; exact hp) (fun e => by simpa using hmem4 e)
           (fun e he => hcurr4 e (by simpa using (hmem4 e).mpr he)) hsaved).congr rfl rfl rfl
           (fun p hp => hsaved p hp)
@@ -1527,7 +1620,7 @@ theorem callC_spec {rec : Rec} (ih : IH rec) (c : Nat) (S : Nat → Prop) (hSc :
     (h : callC rec c x s = some (s', r)) :
     Inv S NoP s' ∧ StaticEq s s' ∧ s'.store = s.store ∧ s'.cur = s.cur ∧ s'.dead = s.dead ∧
     (∀ q y, s.comps q = some y → y.dirty = false → s'.comps q = some y) ∧
-    (∀ q, c < q → s'.comps q = s.comps q) ∧
+    (∀ q, c < q → s'.comps q = s.comps q) ∧ Below (· ≤ c) s s' ∧
     (∀ v, r = .ok v → (∃ y, s'.comps c = some y ∧ y.dirty = false ∧ y.value = some v ∧ Justified x s' y) ∧
       (x.dirty = false → x.value = some v)) ∧
     (∀ e, r = .err e →
@@ -1544,7 +1637,8 @@ theorem callC_spec {rec : Rec} (ih : IH rec) (c : Nat) (S : Nat → Prop) (hSc :
     obtain ⟨v0, ps, hv0, _, _⟩ := hf2 hf
     rw [hv0] at h
     injection h with h; injection h with h1 h2; subst h1 h2
-    refine ⟨inv, StaticEq.refl s, rfl, rfl, rfl, fun _ _ h _ => h, fun _ _ => rfl, fun v hv => ?_, fun e he => by cases he⟩
+    refine ⟨inv, StaticEq.refl s, rfl, rfl, rfl, fun _ _ h _ => h, fun _ _ => rfl, Below.refl _ s, fun v hv => ?_,
+      fun e he => by cases he⟩
     injection hv with hv; subst hv
     exact ⟨⟨x, hx, hd, hv0, Or.inl rfl⟩, fun _ => hv0⟩
   · have hd' : x.dirty = true := by cases hxd : x.dirty <;> simp_all
@@ -1559,15 +1653,27 @@ theorem callC_spec {rec : Rec} (ih : IH rec) (c : Nat) (S : Nat → Prop) (hSc :
           (fun p v hp => invS'.parents c x hx p v hp) (fun p v hp => ⟨v, hp⟩) (fun hd0 => by simp [hd'] at hd0)
           (fun v hv hdd => ⟨hv, hdd⟩)
       have se0 : StaticEq s (s.setComp c { x with first := false }) := StaticEq.of_setComp hx rfl rfl rfl
-      obtain ⟨i1, i2, i3, i4, i5, i7, i8, hok, herr⟩ :=
+      obtain ⟨i1, i2, i3, i4, i5, i7, i8, ib, hok, herr⟩ :=
         evalBody_spec ih c S hSc hSlt (x := { x with first := false }) (w.of_staticEq se0) inv0
         (setComp_same _ _ _) rfl hsaved h
-      refine ⟨i1, se0.trans i2, i3, i4, i5, ?_, ?_, fun v hv => ?_, fun e he => ?_⟩
+      refine ⟨i1, se0.trans i2, i3, i4, i5, ?_, ?_, ?_, fun v hv => ?_, fun e he => ?_⟩
       · intro q y0 hy0 hd0
         have hq : q ≠ c := by intro e; subst e; rw [hx] at hy0; cases hy0; simp [hd'] at hd0
         exact i7 q y0 (by rw [setComp_ne _ _ hq]; exact hy0) hd0
       · intro q hq
         rw [i8 q hq, setComp_ne _ _ (by omega)]
+      · refine Below.snoc (Below.eq_step (fun q (hq : q < c) => setComp_ne _ _ (by omega)) ib) ?_
+        intro x0 hx0
+        rw [hx] at hx0; cases hx0
+        cases r with
+        | ok v =>
+          obtain ⟨y, hy, _, _, hye⟩ := hok v rfl
+          have hye' : y.evals = x.evals + 1 := hye
+          exact ⟨y, hy, Or.inr ⟨by omega, hd', Or.inl hf⟩⟩
+        | err e =>
+          obtain ⟨y, hy, _, _, _, hye⟩ := herr e rfl
+          have hye' : y.evals = x.evals + 1 := hye
+          exact ⟨y, hy, Or.inr ⟨by omega, hd', Or.inl hf⟩⟩
       · obtain ⟨y, hy, hyd, hyv, hye⟩ := hok v hv
         exact ⟨⟨y, hy, hyd, hyv, Or.inr ⟨hye, hd', Or.inl hf⟩⟩, fun h' => by simp [hd'] at h'⟩
       · obtain ⟨y, hy, hyf, hyd, hdf, hye⟩ := herr e he
@@ -1596,7 +1702,7 @@ theorem callC_spec {rec : Rec} (ih : IH rec) (c : Nat) (S : Nat → Prop) (hSc :
         obtain ⟨b, hb, _⟩ := hpre s1 _ hp
         cases hb
       · rename_i s1 hp
-        obtain ⟨b, hb, i1, i2, i3, i4, i5, i6, i7, i8, i9⟩ := hpre s1 _ hp
+        obtain ⟨b, hb, i1, i2, i3, i4, i5, i6, i7, ib, i8, i9⟩ := hpre s1 _ hp
         injection hb with hb; subst hb
         have hc1 : s1.comps c = some x := by
           rw [i7 c (Nat.le_refl c)]; exact setComp_same _ _ _
@@ -1613,20 +1719,34 @@ theorem callC_spec {rec : Rec} (ih : IH rec) (c : Nat) (S : Nat → Prop) (hSc :
           rw [i7 q (by omega)]
           show (s.setComp c x).comps q = _
           rw [setComp_ne _ _ (by omega)]
-        obtain ⟨j1, j2, j3, j4, j5, j7, j8, hok, herr⟩ :=
+        obtain ⟨j1, j2, j3, j4, j5, j7, j8, jb, hok, herr⟩ :=
           evalBody_spec ih c S hSc hSlt (w.of_staticEq se1) (inv1.push (c := c) hc1 hd') (by exact hc1) hf' hsaved h
         obtain ⟨e0, he0, hst0⟩ := i9 rfl
         have hstale : ∃ e ∈ x.parents, Stale s' e :=
           ⟨e0, he0, Stale.keep (s := s1) j3 ⟨j2.progs, j2.decls, j2.comps⟩ j7 hst0⟩
+        have hbelow : Below (· ≤ c) s s' := by
+          refine Below.snoc (Below.eq_step (s1 := { (s.setComp c x) with cur := none })
+            (fun q (hq : q < c) => setComp_ne _ _ (by omega))
+            (Below.trans (s1 := s1) j3 ⟨j2.progs, j2.decls, j2.comps⟩ j7 ib
+              (Below.eq_step (s1 := { s1 with cur := s.cur }) (fun _ _ => rfl) jb))) ?_
+          intro x0 hx0
+          rw [hx] at hx0; cases hx0
+          cases r with
+          | ok v =>
+            obtain ⟨y, hy, _, _, hye⟩ := hok v rfl
+            exact ⟨y, hy, Or.inr ⟨by omega, hd', Or.inr hstale⟩⟩
+          | err e =>
+            obtain ⟨y, hy, _, _, _, hye⟩ := herr e rfl
+            exact ⟨y, hy, Or.inr ⟨by omega, hd', Or.inr hstale⟩⟩
         refine ⟨j1, se1.trans j2, j3.trans i3, j4, j5.trans i5,
           fun q y0 hy0 hd0 => j7 q y0 (hkeep1 q y0 hy0 hd0) hd0,
-          fun q hq => (j8 q hq).trans (hab1 q hq), fun v hv => ?_, fun e he => ?_⟩
+          fun q hq => (j8 q hq).trans (hab1 q hq), hbelow, fun v hv => ?_, fun e he => ?_⟩
         · obtain ⟨y, hy, hyd, hyv, hye⟩ := hok v hv
           exact ⟨⟨y, hy, hyd, hyv, Or.inr ⟨hye, hd', Or.inr hstale⟩⟩, fun h' => by simp [hd'] at h'⟩
         · obtain ⟨y, hy, hyf, hyd, hdf, hye⟩ := herr e he
           exact ⟨y, hy, hyf, hyd, hdf, Or.inr ⟨hye, hd', Or.inr hstale⟩⟩
       · rename_i s1 hp
-        obtain ⟨b, hb, i1, i2, i3, i4, i5, i6, i7, i8, i9⟩ := hpre s1 _ hp
+        obtain ⟨b, hb, i1, i2, i3, i4, i5, i6, i7, ib, i8, i9⟩ := hpre s1 _ hp
         injection hb with hb; subst hb
         have hc1 : s1.comps c = some x := by
           rw [i7 c (Nat.le_refl c)]; exact setComp_same _ _ _
@@ -1655,7 +1775,21 @@ theorem callC_spec {rec : Rec} (ih : IH rec) (c : Nat) (S : Nat → Prop) (hSc :
             (fun p v hp => i1.parents c x hc1 p v hp) (fun p v hp => ⟨v, hp⟩)
             (fun _ p v hp _ => i8 rfl (p, v) hp)
             (fun v hv hdd => by rcases hdd with hdd | hdd; simp [hd'] at hdd; exact absurd hdd (by simp [NoP]))
-        refine ⟨invf.congr rfl rfl rfl hsaved, ?_, i3, rfl, i5, ?_, ?_, fun v hv => ?_, fun e he => (by cases he)⟩
+        have sef : StaticEq s1 ({ (s1.setComp c { x with dirty := false }) with cur := s.cur } : St) := by
+          have := StaticEq.of_setComp (s := s1) (x' := { x with dirty := false }) hc1 rfl rfl rfl
+          exact ⟨this.progs, this.decls, this.comps⟩
+        have hbelow : Below (· ≤ c) s ({ (s1.setComp c { x with dirty := false }) with cur := s.cur } : St) := by
+          refine Below.snoc (Below.eq_step (s1 := { (s.setComp c x) with cur := none })
+            (fun q (hq : q < c) => setComp_ne _ _ (by omega))
+            (Below.step_eq ib rfl sef ?_ (fun q (hq : q < c) => setComp_ne _ _ (by omega)))) ?_
+          · intro q y hy hdq
+            have hq : q ≠ c := by intro e; subst e; rw [hc1] at hy; cases hy; simp [hd'] at hdq
+            show (s1.setComp c _).comps q = some y
+            rw [setComp_ne _ _ hq]; exact hy
+          · intro x0 hx0
+            rw [hx] at hx0; cases hx0
+            exact ⟨_, setComp_same _ _ _, Or.inl ⟨rfl, fun h' => by simp at h'⟩⟩
+        refine ⟨invf.congr rfl rfl rfl hsaved, ?_, i3, rfl, i5, ?_, ?_, hbelow, fun v hv => ?_, fun e he => (by cases he)⟩
         · have := (se0'.trans i2).trans (StaticEq.of_setComp (x' := { x with dirty := false }) hc1 rfl rfl rfl)
           exact ⟨this.progs, this.decls, this.comps⟩
         · intro q y hy hdq
@@ -1679,14 +1813,15 @@ theorem getC_spec {rec : Rec} (ih : IH rec) (c : Nat) (S : Nat → Prop) (hSc : 
     simp only [hx] at h
     injection h with h; injection h with h1 h2; subst h1 h2
     exact ⟨fun v hv => (by cases hv), fun e _ =>
-      ⟨inv, StaticEq.refl s, rfl, rfl, rfl, Or.inl hx, fun _ _ h _ => h, fun _ _ => rfl⟩⟩
+      ⟨inv, StaticEq.refl s, rfl, rfl, rfl, Or.inl hx, fun _ _ h _ => h, fun _ _ => rfl, Below.refl _ s⟩⟩
   | some x =>
     simp only [hx] at h
     cases hcall : callC rec c x s with
     | none => simp [hcall] at h
     | some res =>
       obtain ⟨s1, r1⟩ := res
-      obtain ⟨inv1, se1, hst1, hcur1, hdead1, hkeep1, hab1, hok1, herr1⟩ := callC_spec ih c S hSc hSlt w inv hx hcall
+      obtain ⟨inv1, se1, hst1, hcur1, hdead1, hkeep1, hab1, hbl1, hok1, herr1⟩ :=
+        callC_spec ih c S hSc hSlt w inv hx hcall
       rw [hcall] at h
       cases r1 with
       | err e =>
@@ -1695,7 +1830,7 @@ theorem getC_spec {rec : Rec} (ih : IH rec) (c : Nat) (S : Nat → Prop) (hSc : 
         refine ⟨fun v hv => (by cases hv), fun e' _ => ?_⟩
         obtain ⟨y, hy, hyf, hyd, hdf, hj⟩ := herr1 e rfl
         exact ⟨inv1, se1, hst1, hcur1, hdead1,
-          Or.inr ⟨y, hy, hyf, hyd, hdf, fun x0 hx0 => by rw [hx] at hx0; cases hx0; exact hj⟩, hkeep1, hab1⟩
+          Or.inr ⟨y, hy, hyf, hyd, hdf, fun x0 hx0 => by rw [hx] at hx0; cases hx0; exact hj⟩, hkeep1, hab1, hbl1⟩
       | ok new =>
         simp only at h
         obtain ⟨⟨y1, hy1, hyd1, hyv1, hyj1⟩, hcl1⟩ := hok1 new rfl
@@ -1738,7 +1873,7 @@ theorem getC_spec {rec : Rec} (ih : IH rec) (c : Nat) (S : Nat → Prop) (hSc : 
               s3.cur = s2.cur → s3.dead = s2.dead → PostGet S c s s3 new := by
             intro s3 i3 e3 hc3 hs3 hcu3 hd3
             refine ⟨i3, (se1.trans se2).trans e3, by rw [hs3, hst2, hst1], by rw [hcu3, hcur2, hcur1],
-              by rw [hd3, hdead2, hdead1], ⟨y1, by rw [hc3]; exact hc2, hyd1, hyv1, ?_⟩, ?_, ?_, ?_⟩
+              by rw [hd3, hdead2, hdead1], ⟨y1, by rw [hc3]; exact hc2, hyd1, hyv1, ?_⟩, ?_, ?_, ?_, ?_⟩
             · intro x0 hx0
               rw [hx] at hx0; cases hx0
               rcases hyj1 with hj | ⟨hj1, hj2, hj3⟩
@@ -1753,6 +1888,18 @@ theorem getC_spec {rec : Rec} (ih : IH rec) (c : Nat) (S : Nat → Prop) (hSc : 
                 rw [hy] at hz; cases hz; simp [hd] at hzd
             · intro q y hy hd; rw [hc3]; exact hkeep2 q y hy hd
             · intro q hq hne; rw [hc3]; exact hab2 q hq hne
+            · have hk13 : ∀ q y, s1.comps q = some y → y.dirty = false → s3.comps q = some y := by
+                intro q y hy hd
+                have hne : s1.cur ≠ some q := by
+                  intro e
+                  obtain ⟨z, hz, hzd⟩ := inv1.stackDirty q (inv1.curStack q e)
+                  rw [hy] at hz; cases hz; simp [hd] at hzd
+                rw [hc3, hoth2 q hne]; exact hy
+              refine Below.step_eq hbl1 (by rw [hs3, hst2]) (se2.trans e3) hk13 fun q (hq : q ≤ c) => ?_
+              have hne : s1.cur ≠ some q := by
+                intro e
+                have := hSlt q (inv1.curStack q e); omega
+              rw [hc3, hoth2 q hne]
             · intro p xp hp hxp; rw [hc3]; exact hpar2' p xp hp hxp
           by_cases hch : new ≠ x.value.join
           · rw [if_pos hch] at h
